@@ -3,7 +3,7 @@
 From Coq Require Import ZArith List Arith Lia Permutation.
 From FF Require Import Model.Tensor Model.PauliIdx Model.Tie.C16 Spec.Kron
   Proofs.TensorIdx Proofs.TensorOrder Proofs.Tensor Proofs.TensorKron Proofs.TensorInsert
-  Proofs.TensorInsertModel Proofs.TensorInsertLoop Proofs.TensorUnfold Proofs.TensorTranspose Proofs.TensorMerge Proofs.PauliIdx.
+  Proofs.TensorInsertModel Proofs.TensorInsertLoop Proofs.TensorUnfold Proofs.TensorTranspose Proofs.TensorTransposeCompose Proofs.TensorMerge Proofs.PauliIdx.
 (* the comparison functions of the correspondence check are built with this file's dependency cone *)
 From FF Require Corr.C16Obs.
 Import ListNotations.
@@ -136,6 +136,32 @@ Theorem C16_transpose_equals_tensor_of_rearranged : forall r L ord,
   1 <= r -> 1 <= length L -> Forall (wf r) L -> Permutation ord (seq 0 (length L)) ->
   (do a <- tensor r L; tensor_transpose r a (map Z.of_nat ord) (dims_table r L)) = tensor r (permute_list ord L).
 Proof. exact transpose_equals_tensor_of_rearranged. Qed.
+
+(* ---- tensor_transpose composes: transposing with o1 and then with o2 (the second call is given the
+   dimensions of the rearranged chain) = ONE transposition with the composed order k |-> o1[o2[k]]; with
+   the inverse order the original chain is returned unchanged.  Every rank, chain, pair of permutations. *)
+Theorem C16_transpose_compose : forall r (L : list arr) o1 o2,
+  1 <= r -> 1 <= length L -> Forall (wf r) L ->
+  Permutation o1 (seq 0 (length L)) -> Permutation o2 (seq 0 (length L)) ->
+  (do a <- tensor_transpose r (chain_u r L) (map Z.of_nat o1) (dims_table r L);
+   tensor_transpose r a (map Z.of_nat o2) (dims_table r (permute_list o1 L)))
+  = tensor_transpose r (chain_u r L) (map Z.of_nat (compose_ord o1 o2)) (dims_table r L).
+Proof. exact transpose_compose. Qed.
+Print Assumptions C16_transpose_compose.
+Theorem C16_transpose_round_trip : forall r (L : list arr) o1 o2,
+  1 <= r -> 1 <= length L -> Forall (wf r) L ->
+  Permutation o1 (seq 0 (length L)) -> Permutation o2 (seq 0 (length L)) ->
+  compose_ord o1 o2 = seq 0 (length L) ->
+  (do a <- tensor_transpose r (chain_u r L) (map Z.of_nat o1) (dims_table r L);
+   tensor_transpose r a (map Z.of_nat o2) (dims_table r (permute_list o1 L)))
+  = Ok (chain_u r L).
+Proof. exact transpose_round_trip. Qed.
+Example C16_transpose_round_trip_example :
+  compose_ord [1; 2; 0] [2; 0; 1] = seq 0 3 /\
+  (do a <- tensor 2 [exA; exB; exC];
+   do b <- tensor_transpose 2 a [1; 2; 0]%Z [[2; 1; 2]; [1; 3; 2]];
+   tensor_transpose 2 b [2; 0; 1]%Z [[1; 2; 2]; [3; 2; 1]]) = tensor 2 [exA; exB; exC].
+Proof. split; reflexivity. Qed.
 
 (* ---- tensor_merge, numerically (code after d3c7a1d): the single einsum with the constructed subscripts on
    the two chains reshaped to their constituent dimensions = Kronecker chain of the merged factor list;
